@@ -246,6 +246,8 @@ def run(chk):
     # 2b. over-determined in some column systems only
     if not chk.violations:
         uneven(chk, exe, rng, 1 if quick else 5)
+    if not chk.violations:
+        uneven_noisy(chk, exe, rng, 6 if quick else 40)
     # 3a. rectangular calibrations
     if not chk.violations:
         rectangular(chk, exe, rng, 6 if quick else 30)
@@ -339,6 +341,79 @@ def uneven(chk, exe, rng, reps):
                         chk.violation('exact-bias-uneven', '%s: weighted and unweighted calibrations differ by %.3e (weighted from the truth by %.3e)' % (tag, d, e), res[1][2][:-2])
                         return
                     chk.count('uneven_exact_ok')
+
+
+def uneven_noisy(chk, exe, rng, trials):
+    """the same uneven layouts with noise of exactly the declared size, on a VNA whose receivers have very different gains (the
+    measurement errors then enter the equations through matrices far from the identity): the data are not rejected wholesale at
+    significance 0.01, whichever port has the extra standards, whichever receiver is the strong one.
+    Layout A: short-open-load-through plus two known reflects on `port`.  Layout B: one reflect on the other port, three on `port`, a
+    through and a second known two-port (both column systems get equations from the two-ports; the other port's system is exactly
+    determined), the reflects measured on their own port only (1x1; nothing samples the leakage then: the VNA has none) or in full"""
+    strata = []
+    for typ in ('UE14', 'E12'):
+        for port in (1, 2):
+            for layout in ('A', 'B'):
+                for gains in ((1.0, 'small'), (1.0, 'large'), ('small', 1.0), ('large', 1.0)):
+                    strata.append((typ, port, layout, gains))
+    lines, cases = [], []
+    for (typ, port, layout, gains) in strata:
+        for k in range(trials):
+            r2 = random.Random(rng.randrange(1 << 30))
+            abbrev = layout == 'B' and k % 2 == 0
+            box = calsim.ErrorBox(r2, typ, 2, 2, 1, leak=0.0) if abbrev else calsim.ErrorBox(r2, typ, 2, 2, 1)
+            d = np.array([g if isinstance(g, float) else (r2.choice([0.2, 0.25]) if g == 'small' else r2.choice([4.0, 5.0])) for g in gains])
+            box.boxes = [[(np.diag(d) @ El, np.diag(d) @ Er, Et, Em) for (El, Er, Et, Em) in sysl] for sysl in box.boxes]
+            sc = NoisySc(r2, typ, 2, 2, 1, form='m', box=box)
+            sc.noise = (1e-3, 3e-3)
+            sc.begin()
+            sc.lines.append('cal new_set_m_error %d 1 N S %s T %s' % (sc.n, vlib.d2h(1e-3), vlib.d2h(3e-3)))
+            sc.lines.append('cal new_set_pvalue_limit %d %s' % (sc.n, vlib.d2h(0.01)))
+            if layout == 'A':
+                sc.solt()
+                for j in range(2):
+                    g = calsim.rc(r2, 0.5)
+                    sc.lines.append('cal make_scalar %d %s' % (sc.c, vlib.c2h(g)))
+                    sc.add_reflect(port, 0, gamma=(3 + j, g))
+            else:
+                sc.add_reflect(3 - port, r2.choice([calsim.SHORT, calsim.OPEN]), abbreviated=abbrev)
+                for code in (calsim.SHORT, calsim.OPEN, calsim.MATCH):
+                    sc.add_reflect(port, code, abbreviated=abbrev)
+                sc.add_through(1, 2)
+                S2 = [[calsim.rc(r2, 0.3), 0.5 + calsim.rc(r2, 0.2)], [0.5 + calsim.rc(r2, 0.2), calsim.rc(r2, 0.3)]]
+                for a_ in (0, 1):
+                    for b_ in (0, 1):
+                        sc.lines.append('cal make_scalar %d %s' % (sc.c, vlib.c2h(S2[a_][b_])))
+                sc.add_line_handles(1, 2, (3, 4, 5, 6), [S2])
+            sc.solve()
+            sc.lines.append('cal free 0')
+            cases.append(((typ, port, layout, gains), len(lines), len(lines) + len(sc.lines) - 2, d))
+            lines += sc.lines
+    out, rc, err = vlib.run_lines(exe, lines + ['cal live'], timeout=2400)
+    if rc != 0 or len(out) != len(lines) + 1:
+        k = min(len(out), len(lines) - 1)
+        c = [c for c in cases if c[1] <= k][-1]
+        chk.violation('sanitizer-uneven-noisy', '%s 2x2 (layout %s, port %d, receiver gains %s): crash / sanitizer report:\n%s' % (c[0][0], c[0][2], c[0][1], c[3].tolist(), err[-1200:]),
+                      lines[c[1]:k + 1])
+        return
+    stat = {}
+    for (key, a, isolve, d) in cases:
+        chk.evaluations += 1
+        st = stat.setdefault(key, [0, 0, None])
+        st[0] += 1
+        if not out[isolve].startswith('ok'):
+            st[1] += 1
+            st[2] = st[2] or lines[a:isolve + 1]
+    chk.count('uneven_noisy_solves', sum(v[0] for v in stat.values()))
+    chk.count('uneven_noisy_rejected', sum(v[1] for v in stat.values()))
+    for (typ, port, layout, gains), (tot, rej, first) in sorted(stat.items(), key=lambda kv: -kv[1][1]):
+        if tot >= 6 and rej > max(2, tot // 3):
+            what = 'two more known reflects on port %d only' % port if layout == 'A' else 'one reflect on port %d, three on port %d, a through and a known two-port' % (3 - port, port)
+            chk.violation('rate-uneven', '%s 2x2, %s, receiver gains %s: noise of exactly the declared size is rejected in %d of %d solves at significance 0.01' % (
+                typ, what, list(gains), rej, tot), first)
+            return
+    if out[-1] != 'ok live=0':
+        chk.violation('leak-uneven-noisy', 'allocations remain after solves on noisy data: %s' % out[-1], lines[:40])
 
 
 def swap_ports_line(l):
